@@ -684,8 +684,12 @@ impl<'a> Gen<'a> {
         }
         // the recursion sits inside a `new` scope of a stream (or stream map) and the same name is written
         // after the scope: the scopes of the outer iterations are still open at the first global write
-        if self.cfg.streams && !self.streams.is_empty() && self.rng.chance(1, 10) {
-            let (s, _) = self.rng.pick(&self.streams).clone();
+        // (never a stream that an enclosing fold iterates: the write after the scope would feed that fold with
+        // equal values in every iteration, unbounded recursion up to the stream size limit)
+        let free_streams: Vec<(String, Shape)> = self.streams.iter().filter(|(n, _)| !self.folding.contains(n)).cloned().collect();
+        let free_maps: Vec<String> = self.maps.iter().filter(|n| !self.folding.contains(*n)).cloned().collect();
+        if self.cfg.streams && !free_streams.is_empty() && self.rng.chance(1, 10) {
+            let (s, _) = self.rng.pick(&free_streams).clone();
             let inner = Ins::Ap { arg: Val::Lit("scoped".into()), out: Out::Stream(s.clone()) };
             let after = Ins::Ap { arg: Val::Var(it.clone()), out: Out::Stream(s.clone()) };
             self.iters.pop();
@@ -697,8 +701,8 @@ impl<'a> Gen<'a> {
                 None => f,
             };
         }
-        if self.cfg.maps && !self.maps.is_empty() && self.rng.chance(1, 12) {
-            let m = self.rng.pick(&self.maps).clone();
+        if self.cfg.maps && !free_maps.is_empty() && self.rng.chance(1, 12) {
+            let m = self.rng.pick(&free_maps).clone();
             let inner = Ins::ApMap { key: Val::Lit("scoped".into()), value: Val::Int(1), map: m.clone() };
             let after = Ins::ApMap { key: Val::Lit("after".into()), value: Val::Var(it.clone()), map: m.clone() };
             self.iters.pop();
